@@ -339,7 +339,8 @@ def judge(case, rec, config):
                     s = sum(it["w"].get((j, k), 0.0) for j in idx) + fixed
                     if s > 1 + 1e-9:
                         out.append(("the weights of the annotated disjunction %s sum to %r after iteration %d" % (
-                            [rec["names"][j] for j in idx], s, i + 1), dict(base, kind="ad-sum")))
+                            [rec["names"][j] for j in idx], s, i + 1),
+                            dict(base, kind="ad-sum", fixed_heads=fixed > 0, learnable_heads=min(len(idx), 2))))
                         done = True
                         break
             if done:
